@@ -254,24 +254,8 @@ fn run_unique_index_case(r: &mut Rng, rep: &mut Report, k: u64, fixed: Option<Ve
         let n = ks.len();
         ks.dedup();
         if n != ks.len() {
-            // narrow classes of the two recorded defects (known_findings.json)
-            let batch_dup = match &st {
-                St::Ins { rows, .. } if rows.len() > 1 => {
-                    let mut v: Vec<String> = rows.iter().filter(|x| !matches!(x[2], Lit::Null)).map(|x| x[2].proto()).collect();
-                    v.sort();
-                    let m = v.len();
-                    v.dedup();
-                    m != v.len()
-                }
-                _ => false,
-            };
-            let sig = if batch_dup {
-                Some("C10/unique-index-insert-batch")
-            } else if matches!(st, St::Upd { .. }) {
-                Some("C10/unique-index-update-not-enforced")
-            } else {
-                None
-            };
+            // both ways this used to happen were repaired (d95cabf8, 95b3853a): any recurrence is a violation
+            let sig: Option<&str> = None;
             rep.fail(FailKind::Oracle, sig, &format!("UNIQUE INDEX holds duplicate non-NULL keys after a {} statement", st.kind()),
                 &format!("CREATE TABLE T (C0 INT PRIMARY KEY, C1 INT, C2 INT);\nCREATE UNIQUE INDEX UX ON T (C2);\n{}\nrows: {}", done.join(";\n"), canon::rows_seq(&rows)));
             break;
@@ -373,7 +357,7 @@ fn main() {
         run_case(name, &s, &h, &mut model, &mut rep);
         rep.count("deterministic_probes");
     }
-    // deterministic reproductions of the two recorded unique-index findings
+    // regression probes of the two repaired unique-index defects (UPDATE to an existing key, in-batch duplicate)
     {
         let mut r = rng.fork();
         run_unique_index_case(&mut r, &mut rep, 100000, Some(vec![
